@@ -127,7 +127,7 @@ fn c10_add_constant() {
     if n >= 1 { c.constants.push(e0); }
     if n >= 2 { c.constants.push(e1); }
     kani::cover!(n == 2 && v == p1 && v != p0);
-    let idx = c.add_constant(obj) as usize;
+    let idx = match &*ManuallyDrop::new(c.add_constant(obj)) { Ok(i) => *i as usize, Err(_) => { assert!(false, "a pool of <= 3 constants fits a 16-bit index"); 0 } };
     assert!(idx < c.constants.len());
     assert!(word(c.constants[idx]) == word(obj));
     assert!(c.constants.len() == n || c.constants.len() == n + 1);
